@@ -225,14 +225,12 @@ fn update_key(
         value_addr,
         start_at
     );
-    //4 bytes
-    keys_file
-        .write_at(&version.to_le_bytes(), start_at)
-        .unwrap();
-    //8 bytes
-    keys_file
-        .write_at(&value_addr.to_le_bytes(), start_at + VERSION_SIZE as u64)
-        .unwrap();
+    // version (4 bytes) and value address (8 bytes) in ONE write: a crash between two writes
+    // would leave the key with the new version and the old address
+    let mut record_tail: Vec<u8> = Vec::with_capacity(VERSION_SIZE + ADDR_SIZE);
+    record_tail.extend_from_slice(&version.to_le_bytes());
+    record_tail.extend_from_slice(&value_addr.to_le_bytes());
+    keys_file.write_at(&record_tail, start_at).unwrap();
 }
 
 fn get_key_file_append_mode(db_name: &String, reclame_space: bool) -> BufWriter<File> {
